@@ -168,7 +168,18 @@ fn eval_builtin_incbin(
                 query.report,
                 query.args[2].span)?;
 
-            start + size
+            match start.checked_add(size)
+            {
+                Some(end) => end,
+                None =>
+                {
+                    query.report.error_span(
+                        "value is out of supported range",
+                        query.args[2].span);
+                    
+                    return Err(());
+                }
+            }
         }
         else
         {
@@ -340,13 +351,36 @@ fn eval_builtin_incstr(
                 query.report,
                 query.args[2].span)?;
 
-            start + size
+            match start.checked_add(size)
+            {
+                Some(end) => end,
+                None =>
+                {
+                    query.report.error_span(
+                        "value is out of supported range",
+                        query.args[2].span);
+                    
+                    return Err(());
+                }
+            }
         }
         else
         {
             bigint_size / bits_per_char
         }
     };
+
+    // Ranges are given in digits; keep the conversions
+    // to bit positions within the machine word
+    if start.checked_mul(bits_per_char).is_none() ||
+        end.checked_mul(bits_per_char).is_none()
+    {
+        query.report.error_span(
+            "value is out of supported range",
+            query.span);
+        
+        return Err(());
+    }
 
     // Without an explicit range the whole file is taken, even if empty;
     // an explicit range must lie within the file
